@@ -19,8 +19,21 @@ static void pm(const mi_commit_mask_t* m) { for (int i = 0; i < MI_COMMIT_MASK_F
 
 static void rnd_mask(mi_commit_mask_t* m) {
   mi_commit_mask_create_empty(m);
-  switch (prng_below(&G, 8)) {
+  switch (prng_below(&G, 10)) {
     case 0: break;                                             // empty
+    case 5: case 6: {                                          // freed pages: 2..12 short runs (1, 8 or 2..24 bits) at positions biased to the
+      static const int counts[] = { 2, 2, 2, 3, 3, 4, 5, 6, 8, 12 };   // word boundaries (62..65, 126..129, ...), otherwise anywhere: runs in different
+      int runs = counts[prng_below(&G, 10)];                   // words, the later one at a lower OR higher bit position, runs that end at bit 63,
+      for (int r = 0; r < runs; r++) {                         // start at bit 0, or cross the boundary
+        size_t idx = (prng_below(&G, 2) == 0 ? (1 + prng_below(&G, 7)) * 64 + prng_below(&G, 4) - 2 : 1 + prng_below(&G, MI_COMMIT_MASK_BITS - 1));
+        size_t k = prng_below(&G, 4);
+        size_t cnt = (k <= 1 ? 1 : k == 2 ? 8 : 2 + prng_below(&G, 23));
+        if (idx + cnt > MI_COMMIT_MASK_BITS) cnt = MI_COMMIT_MASK_BITS - idx;
+        mi_commit_mask_t t; mi_commit_mask_create(idx, cnt, &t);
+        mi_commit_mask_set(m, &t);
+      }
+      break;
+    }
     case 1: mi_commit_mask_create_full(m); break;              // full
     case 2: for (int i = 0; i < MI_COMMIT_MASK_FIELD_COUNT; i++) m->mask[i] = prng_next(&G); break;                 // dense
     case 3: for (int i = 0; i < MI_COMMIT_MASK_FIELD_COUNT; i++) m->mask[i] = prng_next(&G) & prng_next(&G) & prng_next(&G); break;   // sparse
@@ -68,13 +81,16 @@ static void rec_ops(void) {
     size_t i2 = idx;
     size_t cnt = _mi_commit_mask_next_run(&a, &i2);
     printf("F cm_next_run"); pm(&a); printf(" %llu = %llu %llu\n", U(idx), U(i2), U(cnt));
+    printf("F cmw_next_run"); pm(&a); printf(" %llu = %llu %llu\n", U(idx), U(i2), U(cnt));     // same call, compared with the word-level model
   }
   size_t idx, count, n = 0;
   size_t ri[MI_COMMIT_MASK_BITS], rc[MI_COMMIT_MASK_BITS];
   mi_commit_mask_foreach(&a, idx, count) { ri[n] = idx; rc[n] = count; n++; } mi_commit_mask_foreach_end()
-  printf("F cm_runs"); pm(&a); printf(" = %zu", n);
-  for (size_t i = 0; i < n; i++) printf(" %llu %llu", U(ri[i]), U(rc[i]));
-  printf("\n");
+  for (int pass = 0; pass < 2; pass++) {      // the same enumeration twice: bit-level model (Model/Mask.v), word-level model (Model/MaskWords.v)
+    printf(pass == 0 ? "F cm_runs" : "F cmw_runs"); pm(&a); printf(" = %zu", n);
+    for (size_t i = 0; i < n; i++) printf(" %llu %llu", U(ri[i]), U(rc[i]));
+    printf("\n");
+  }
 }
 
 static mi_segment_t* fakeseg;
